@@ -15,7 +15,9 @@ from the history, plus the implementation's previous answer (the state `filter_s
 namespace Bpp.Drive.C20
 open Bpp Bpp.Proto
 
-def U : Nat := 128
+def U : Nat := 176
+/-- cell `p` of the specification vectors stands for the script integer `p - OFF` -/
+def OFF : Int := 64
 
 /-- how script integers are read into / printed from a coordinate type
 (`static_cast<T>(long long) / scale` and `(long long)(v * scale)` in the harness) -/
@@ -43,7 +45,7 @@ structure St (α : Type) where
   implMr : Array (List (Range α)) := Array.replicate 4 []
 
 def cellIn (sc : Nat) (r : Range α) (p : Nat) : Bool :=
-  decide (r.b ≤ Wire.ofScript (p : Int) sc) && decide ((Wire.ofScript (p : Int) sc : α) < r.e)
+  decide (r.b ≤ Wire.ofScript ((p : Int) - OFF) sc) && decide ((Wire.ofScript ((p : Int) - OFF) sc : α) < r.e)
 
 def showC (sc : Nat) (l : List α) : String := showInts (l.map (fun v => Wire.toScript v sc))
 
@@ -57,8 +59,8 @@ def parseRanges (sc : Nat) : List Int → Option (List (Range α))
 /-- The executable form of the invariant the theorems are about (`MultiRange.Inv`). -/
 def invOk : List (Range α) → Bool
   | [] => true
-  | [x] => decide (0 ≤ x.b) && decide (x.b < x.e)
-  | x :: y :: rest => decide (0 ≤ x.b) && decide (x.b < x.e) && decide (x.e ≤ y.b) && invOk (y :: rest)
+  | [x] => decide (x.b < x.e)
+  | x :: y :: rest => decide (x.b < x.e) && decide (x.e ≤ y.b) && invOk (y :: rest)
 
 def denotes (sc : Nat) (l : List (Range α)) (spec : Array Bool) : Bool :=
   (List.range U).all (fun p => (l.any (fun r => cellIn sc r p)) == spec[p]!)
